@@ -58,6 +58,13 @@ const FIELDS: [&str; 11] = [
 ];
 
 pub fn make_ossl_ca(rng: &mut Rng, key: &PoolKey) -> Result<OsslCa, String> {
+	make_ossl_ca_with(rng, key, &[])
+}
+
+/// Like `make_ossl_ca`; a non-empty `forced` list replaces the generated subject by exactly these
+/// (field, string type, text) entries. OpenSSL copies the text into the chosen type unchecked,
+/// which is how foreign certificates with out-of-alphabet strings come about.
+pub fn make_ossl_ca_with(rng: &mut Rng, key: &PoolKey, forced: &[(&str, Asn1Type, &str)]) -> Result<OsslCa, String> {
 	let e = |x: openssl::error::ErrorStack| x.to_string();
 	let pkey: PKey<Private> = ossl::load_private(&key.der)?;
 	let mut nb = X509NameBuilder::new().map_err(e)?;
@@ -65,7 +72,11 @@ pub fn make_ossl_ca(rng: &mut Rng, key: &PoolKey) -> Result<OsslCa, String> {
 	let n = 1 + rng.below(6);
 	let mut used: Vec<&str> = Vec::new();
 	let repeated = rng.chance(1, 3);
-	for _ in 0..n {
+	for (f, ty, text) in forced {
+		nb.append_entry_by_text_with_type(f, text, *ty).map_err(e)?;
+		subject.push((f.to_string(), "forced".to_string(), text.to_string()));
+	}
+	for _ in 0..if forced.is_empty() { n } else { 0 } {
 		let f = loop {
 			let f = *rng.pick(&FIELDS);
 			if repeated || !used.contains(&f) {
